@@ -168,13 +168,23 @@ theorem plainError_E (c : Conn) : E c c.plainError.1 := by
         | none => exact E.of_data c _ (hs.trans (rollback_dataOnly db1))
     · exact E.refl c
 
+theorem kbiError_E (c : Conn) : E c c.kbiError.1 := by
+  unfold Conn.kbiError
+  simp only []
+  split
+  · exact E.refl c
+  · exact Evo.kill
+
 theorem dbapiError_E (c : Conn) (k : FKind) : E c (c.dbapiError k).1 := by
   unfold Conn.dbapiError
   split
-  · exact discError_E c
-  · cases k with
-    | disc => exact discError_E c
-    | err => exact plainError_E c
+  · exact kbiError_E c
+  · split
+    · exact discError_E c
+    · cases k with
+      | disc => exact discError_E c
+      | err => exact plainError_E c
+      | kbi => exact plainError_E c
 
 theorem dbapiCall_E (c : Conn) (p : FPoint) (f : DB → DB) (hf : ∀ db, DataOnly db (f db)) :
     E c (c.dbapiCall p f).1 := by
@@ -331,17 +341,31 @@ theorem exit_E (c : Conn) (h : Nat) (e : Bool) : E c (c.exit h e).1 := by
       · exact E.refl c
     · exact tRollback_E c h
 
+theorem applyChar_dataOnly (db : DB) (b : Bool) : DataOnly db (db.applyChar b) := by
+  unfold DB.applyChar
+  cases b <;> exact ⟨rfl, rfl, rfl, rfl, rfl, rfl⟩
+
 theorem setAutocommit_E (c : Conn) : E c c.setAutocommit.1 := by
   unfold Conn.setAutocommit
   split
   · exact E.refl c
-  · refine andThen_E (connProp_E c) (fun c1 => ?_)
-    exact E.of_data c1 _ ⟨rfl, rfl, rfl, rfl, rfl, rfl⟩
+  · exact andThen_E (connProp_E c) (fun c1 => E.of_data c1 _ (applyChar_dataOnly _ _))
+
+theorem setLogToken_E (c : Conn) : E c c.setLogToken.1 := by
+  unfold Conn.setLogToken
+  exact andThen_E (connProp_E c) (fun c1 => E.of_data c1 _ (applyChar_dataOnly _ _))
+
+theorem setReadUnc_E (c : Conn) : E c c.setReadUnc.1 := by
+  unfold Conn.setReadUnc
+  split
+  · exact E.refl c
+  · exact andThen_E (connProp_E c) (fun c1 => E.of_data c1 _ ⟨rfl, rfl, rfl, rfl, rfl, rfl⟩)
 
 /-- every API call that neither closes nor replaces the Connection -/
 def Op.plain : Op → Bool
   | .begin | .beginNested | .exec _ | .commit | .rollback | .tCommit _ | .tRollback _ | .tClose _
-  | .enter _ | .exitOk _ | .exitExc _ | .invalidate | .autocommit | .arm _ _ | .disarm => true
+  | .enter _ | .exitOk _ | .exitExc _ | .invalidate | .autocommit | .arm _ _ | .disarm
+  | .readUnc | .logToken | .otherOpt | .tokenAuto => true
   | _ => false
 
 theorem step_E (c : Conn) (op : Op) (hp : op.plain = true) : E c (c.step op).1 := by
@@ -359,6 +383,10 @@ theorem step_E (c : Conn) (op : Op) (hp : op.plain = true) : E c (c.step op).1 :
   | exitExc h => exact exit_E c h true
   | invalidate => exact invalidate_E c
   | autocommit => exact setAutocommit_E c
+  | readUnc => exact setReadUnc_E c
+  | logToken => exact setLogToken_E c
+  | otherOpt => exact E.refl c
+  | tokenAuto => exact setAutocommit_E c
   | arm p k => exact E.of_data c _ ⟨rfl, rfl, rfl, rfl, rfl, rfl⟩
   | disarm => exact E.of_data c _ ⟨rfl, rfl, rfl, rfl, rfl, rfl⟩
   | close => simp [Op.plain] at hp
